@@ -49,8 +49,8 @@ def corpus():
 
 
 def generate(rng, tier):
-    n = 800 if tier == 'quick' else 20000
-    m = 300 if tier == 'quick' else 5000
+    n = 2000 if tier == 'quick' else 20000
+    m = 500 if tier == 'quick' else 5000
     return [L.gen_history(rng, PROFILE, rng.randint(3, 40)) for _ in range(n)] + [gen_inherit(rng) for _ in range(m)]
 
 
